@@ -46,13 +46,21 @@ def run(ctx, res):
     res.ob(solver.entails(vr["facts"], f_and(flit(lt(o, LEN)), flit(le(o + 4, LEN)), flit(le(o + Lo, LEN)))), "recurrence", d,
            "at every chain point below len: a whole header and the whole announced packet fit", detail=show_pc(vr["facts"]))
     n_ok = n_err = 0
+    ren = vr.get("renamed")
+
+    def PC(st_):
+        """the outcome's path condition in the recurrence's own variable (offset reached)"""
+        if not ren:
+            return st_.pc
+        return [(l[0], subst_deep(l[1], ren)) if l[0] in ("le", "eq", "ne") else l for l in st_.pc] + list(vr.get("renamed_facts", []))
+
     for s, k, v in outs:
         if k != "val" or not isinstance(v, StructV):
             continue
         if v.variant == "Ok":
             n_ok += 1
             c = v.fields["0"]
-            res.ob(solver.entails(s.pc, f_and(flit(ge(LEN, 1)), flit(eq(vr["final"], LEN)))), "tiling", d,
+            res.ob(solver.entails(PC(s), f_and(flit(ge(LEN, 1)), flit(eq(vr["final"], LEN)))), "tiling", d,
                    "accepted => non-empty and the chain of length fields ends exactly at len", pc=s.pc)
             c_off, c_over = field_of(c, IntV, "offset"), field_of(c, BoolV, "is_over")
             good = isinstance(c, StructV) and same_view(s.pc, field_of(c, SliceV, "data"), inp) and \
@@ -62,7 +70,7 @@ def run(ctx, res):
         else:
             n_err += 1
             goal = f_or(flit(eq(LEN, 0)), f_and(flit(lt(o, LEN)), f_or(flit(lt(LEN, o + 4)), flit(lt(LEN, o + Lo)))))
-            res.ob(solver.entails(s.pc, goal), "tiling", d,
+            res.ob(solver.entails(PC(s), goal), "tiling", d,
                    "rejected => empty, or some chain point has no room for its header or for its announced length", detail=repr(v)[:200], pc=s.pc)
     res.floor("accepting outcomes", n_ok, 1)
     res.floor("rejecting outcomes", n_err, 3)
